@@ -165,6 +165,22 @@ func BVSym(src string, first, w int) *BV {
 	return v
 }
 
+// BVSymPadded is a w-bit word whose n low bits are input bits src:first… and whose other bits are 0.
+func BVSymPadded(src string, first, n, w int) Val {
+	v := &BV{Bits: make([]Bit, w)}
+	for i := 0; i < w; i++ {
+		if i < n {
+			v.Bits[i] = bitSym(src, first+i)
+		} else {
+			v.Bits[i] = bitConst(0)
+		}
+	}
+	if n <= 0 {
+		return MkInt(0)
+	}
+	return v
+}
+
 func bvTop(w int) *BV {
 	v := &BV{Bits: make([]Bit, w)}
 	for i := range v.Bits {
@@ -191,6 +207,187 @@ type BitDom struct {
 	// Prims: in-repo functions treated as primitives; the hook records the call and returns results.
 	Prims map[string]func(in *Interp, site ssa.Instruction, args []Val) []Val
 	prog  *load.Program
+	// Enum: arithmetic and comparisons on words with symbolic bits are decided by
+	// enumerating those bits (one declared two-way fork per input bit, remembered
+	// for the rest of the path) instead of giving up.
+	Enum bool
+}
+
+// Assignment returns the input bits fixed so far on this path (Enum mode).
+func (d *BitDom) Assignment(in *Interp) map[string]int8 {
+	m, _ := in.Data["bitassign"].(map[string]int8)
+	if m == nil {
+		m = map[string]int8{}
+		in.Data["bitassign"] = m
+	}
+	return m
+}
+
+// ResetAssignment forgets all fixed bits (start of a new path).
+func (d *BitDom) ResetAssignment(in *Interp) { in.Data["bitassign"] = map[string]int8{} }
+
+// resolve replaces bits already fixed on this path by their constants.
+func (d *BitDom) resolve(in *Interp, v *BV) *BV {
+	asg := d.Assignment(in)
+	if len(asg) == 0 {
+		return v
+	}
+	var r *BV
+	for i, b := range v.Bits {
+		if b.Const >= 0 || b.Top || len(b.Set) != 1 {
+			continue
+		}
+		if val, ok := asg[b.Set[0]]; ok {
+			if r == nil {
+				r = &BV{Bits: append([]Bit{}, v.Bits...)}
+			}
+			if b.Neg {
+				val = 1 - val
+			}
+			r.Bits[i] = bitConst(int(val))
+		}
+	}
+	if r == nil {
+		return v
+	}
+	return r
+}
+
+// bounds of the unsigned reading: symbolic bits at 0 / at 1.
+func (v *BV) bounds() (lo, hi *big.Int, ok bool) {
+	lo, hi = new(big.Int), new(big.Int)
+	for i, b := range v.Bits {
+		switch {
+		case b.Top:
+			return nil, nil, false
+		case b.Const == 1:
+			lo.SetBit(lo, i, 1)
+			hi.SetBit(hi, i, 1)
+		case b.Const < 0:
+			hi.SetBit(hi, i, 1)
+		}
+	}
+	return lo, hi, true
+}
+
+// Concretise fixes every symbolic bit of v (a declared fork per input bit) and returns the integer.
+func (d *BitDom) Concretise(in *Interp, x Val, t types.Type, pos ssa.Instruction) Int {
+	if iv, ok := x.(Int); ok {
+		return iv
+	}
+	v := d.lift(in, x, t)
+	if v == nil {
+		in.Undecided(pos, "bit domain: cannot enumerate %T", x)
+	}
+	v = d.resolve(in, v)
+	asg := d.Assignment(in)
+	val := new(big.Int)
+	for i, b := range v.Bits {
+		switch {
+		case b.Top || (b.Const < 0 && len(b.Set) != 1):
+			in.Undecided(pos, "bit domain: bit %d of the word is %s; only plain input bits can be enumerated", i, b)
+		case b.Const == 1:
+			val.SetBit(val, i, 1)
+		case b.Const < 0:
+			bit, ok := asg[b.Set[0]]
+			if !ok {
+				if in.Choose(b.Set[0]) {
+					bit = 1
+				}
+				asg[b.Set[0]] = bit
+			}
+			if b.Neg {
+				bit = 1 - bit
+			}
+			if bit == 1 {
+				val.SetBit(val, i, 1)
+			}
+		}
+	}
+	if _, signed, ok := intInfo(t, in.WordBits); ok && signed {
+		val = Wrap(val, len(v.Bits), true)
+	}
+	return Int{V: val}
+}
+
+func (d *BitDom) enumBinOp(in *Interp, op token.Token, x, y Val, xt types.Type, pos ssa.Instruction) (Val, bool) {
+	switch op {
+	case token.ADD, token.SUB, token.MUL, token.QUO, token.REM, token.LSS, token.GTR, token.LEQ, token.GEQ, token.EQL, token.NEQ:
+	case token.SHL, token.SHR:
+		if _, ok := y.(Int); ok {
+			return nil, false
+		}
+	default:
+		return nil, false
+	}
+	if bx, ok := x.(*BV); ok {
+		x = d.out(d.resolve(in, bx))
+	}
+	if by, ok := y.(*BV); ok {
+		y = d.out(d.resolve(in, by))
+	}
+	// comparisons decided by the ranges of the two words (unsigned reading) need no fork
+	if _, signed, _ := intInfo(xt, in.WordBits); !signed {
+		switch op {
+		case token.LSS, token.GTR, token.LEQ, token.GEQ, token.EQL, token.NEQ:
+			a, b := d.lift(in, x, xt), d.lift(in, y, xt)
+			if a != nil && b != nil {
+				alo, ahi, ok1 := a.bounds()
+				blo, bhi, ok2 := b.bounds()
+				if ok1 && ok2 {
+					below := ahi.Cmp(blo) < 0     // always a < b
+					above := alo.Cmp(bhi) > 0     // always a > b
+					notAbove := ahi.Cmp(blo) <= 0 // always a <= b
+					notBelow := alo.Cmp(bhi) >= 0 // always a >= b
+					switch op {
+					case token.LSS:
+						if below {
+							return Bool{true}, true
+						}
+						if notBelow {
+							return Bool{false}, true
+						}
+					case token.GTR:
+						if above {
+							return Bool{true}, true
+						}
+						if notAbove {
+							return Bool{false}, true
+						}
+					case token.LEQ:
+						if notAbove {
+							return Bool{true}, true
+						}
+						if above {
+							return Bool{false}, true
+						}
+					case token.GEQ:
+						if notBelow {
+							return Bool{true}, true
+						}
+						if below {
+							return Bool{false}, true
+						}
+					case token.EQL:
+						if below || above {
+							return Bool{false}, true
+						}
+					case token.NEQ:
+						if below || above {
+							return Bool{true}, true
+						}
+					}
+				}
+			}
+		}
+	}
+	xi := d.Concretise(in, x, xt, pos)
+	yt := xt
+	if op == token.SHL || op == token.SHR {
+		yt = types.Typ[types.Uint64]
+	}
+	yi := d.Concretise(in, y, yt, pos)
+	return in.concreteBinOp(pos, op, xi, yi, xt), true
 }
 
 func NewBitDom(p *load.Program) *BitDom {
@@ -248,6 +445,11 @@ func (d *BitDom) out(v *BV) Val {
 }
 
 func (d *BitDom) BinOp(in *Interp, op token.Token, x, y Val, xt types.Type, pos ssa.Instruction) Val {
+	if d.Enum {
+		if r, ok := d.enumBinOp(in, op, x, y, xt, pos); ok {
+			return r
+		}
+	}
 	a := d.lift(in, x, xt)
 	if a == nil {
 		in.Undecided(pos, "bit domain: operand %T", x)
@@ -336,6 +538,9 @@ func (d *BitDom) UnOp(in *Interp, op token.Token, x Val, xt types.Type, pos ssa.
 		}
 		return d.out(r)
 	}
+	if op == token.SUB && d.Enum {
+		return in.concreteUnOp(pos, op, d.Concretise(in, x, xt, pos), xt)
+	}
 	if op == token.SUB {
 		// −n: individual bits are not OR-sets, but n | −n is the prefix OR (see BinOp)
 		t := bvTop(len(a.Bits))
@@ -365,8 +570,10 @@ func (d *BitDom) Convert(in *Interp, x Val, from, to types.Type, pos ssa.Instruc
 	return d.out(resize(a, w))
 }
 
-func (d *BitDom) Branch(in *Interp, cond Val, site *ssa.If) (bool, bool, bool) { return false, false, false }
-func (d *BitDom) Assume(in *Interp, cond Val, truth bool, site *ssa.If)         {}
+func (d *BitDom) Branch(in *Interp, cond Val, site *ssa.If) (bool, bool, bool) {
+	return false, false, false
+}
+func (d *BitDom) Assume(in *Interp, cond Val, truth bool, site *ssa.If) {}
 
 func (d *BitDom) Call(in *Interp, site ssa.Instruction, fn *ssa.Function, args []Val) ([]Val, bool) {
 	name := fn.String()
